@@ -1,0 +1,387 @@
+//go:build verif
+
+package otto
+
+// Verification hooks for property C17 (build tag verif): a dump of the heap reachable
+// from a runtime's roots, with Go pointer identities, in a deterministic depth-first
+// order. They add code only and change no behaviour.
+
+import (
+	"encoding/hex"
+	"fmt"
+	"math"
+	"sort"
+	"strconv"
+	"strings"
+	"unsafe"
+)
+
+// VerifC17Val is a JavaScript value: a primitive (canonical token) or an object reference.
+type VerifC17Val struct {
+	Prim string
+	Obj  int // node index, -1 when primitive
+}
+
+// VerifC17Prop is one own property, in propertyOrder order.
+type VerifC17Prop struct {
+	Name     string
+	Mode     int
+	Kind     byte // 'd' data, 'a' accessor, 'x' anything else
+	Val      VerifC17Val
+	Get, Set int // node index or -1
+}
+
+// VerifC17Binding is one declarative binding.
+type VerifC17Binding struct {
+	Name  string
+	Val   VerifC17Val
+	Flags int // mutable<<2 | deletable<<1 | readable
+}
+
+// VerifC17Node is one heap node: object ("O"), dclStash ("D"), fnStash ("F"), objectStash ("E").
+type VerifC17Node struct {
+	Kind string
+	Ptr  uintptr
+	Rt   uintptr // the *runtime the node points back to
+
+	// objects
+	Class   string
+	OClass  string
+	Ext     bool
+	Proto   int
+	Props   []VerifC17Prop
+	OrderOK bool   // propertyOrder and the property map have the same key set, no duplicates
+	PKind   byte   // payload: 'N' other/none, 'G' native function, 'B' bound, 'C' node function, 'A' arguments
+	PData   string // canonical description of the by-value part of the payload
+	Target  int
+	This    VerifC17Val
+	Args    []VerifC17Val
+	Stash   int
+	Names   []string
+	NodePtr uintptr // *nodeFunctionLiteral (shared, immutable)
+
+	// stashes
+	Outer     int
+	Bindings  []VerifC17Binding
+	Arguments int
+	Index     [][2]string
+	Object    int
+}
+
+// VerifC17Heap is a dump: Roots index into Nodes (-1 = nil).
+type VerifC17Heap struct {
+	Runtime uintptr
+	Roots   []int
+	Nodes   []VerifC17Node
+}
+
+type verifC17Key struct {
+	kind byte
+	ptr  uintptr
+}
+
+type verifC17Dumper struct {
+	h   *VerifC17Heap
+	idx map[verifC17Key]int
+}
+
+func verifC17Hex(s string) string { return hex.EncodeToString([]byte(s)) }
+
+func verifC17Safe(s string) string {
+	return strings.Map(func(r rune) rune {
+		if r >= 'a' && r <= 'z' || r >= 'A' && r <= 'Z' || r >= '0' && r <= '9' || r == '.' || r == '_' {
+			return r
+		}
+		return '_'
+	}, s)
+}
+
+func verifC17Prim(v Value) string {
+	switch x := v.value.(type) {
+	case nil:
+		switch v.kind {
+		case valueUndefined:
+			return "u"
+		case valueNull:
+			return "n"
+		case valueEmpty:
+			return "e"
+		}
+		return "k" + strconv.Itoa(int(v.kind))
+	case bool:
+		if x {
+			return "b1"
+		}
+		return "b0"
+	case string:
+		return "s" + verifC17Hex(x)
+	case float64:
+		return "f" + fmt.Sprintf("%016x", math.Float64bits(x))
+	case float32:
+		return "g" + fmt.Sprintf("%08x", math.Float32bits(x))
+	case int, int8, int16, int32, int64, uint, uint8, uint16, uint32, uint64:
+		return "i" + verifC17Safe(fmt.Sprintf("%T.%d", x, x))
+	}
+	return "x" + verifC17Safe(fmt.Sprintf("%T", v.value))
+}
+
+func (d *verifC17Dumper) val(v Value) VerifC17Val {
+	if o, ok := v.value.(*object); ok {
+		return VerifC17Val{Obj: d.object(o)}
+	}
+	return VerifC17Val{Prim: verifC17Prim(v), Obj: -1}
+}
+
+func (d *verifC17Dumper) alloc(kind byte, ptr uintptr) (int, bool) {
+	k := verifC17Key{kind, ptr}
+	if i, ok := d.idx[k]; ok {
+		return i, true
+	}
+	i := len(d.h.Nodes)
+	d.idx[k] = i
+	d.h.Nodes = append(d.h.Nodes, VerifC17Node{Kind: string(kind), Ptr: ptr, Proto: -1, Target: -1, Stash: -1, Outer: -1, Arguments: -1, Object: -1})
+	return i, false
+}
+
+func verifC17ClassName(c *objectClass) string {
+	switch c {
+	case nil:
+		return "nil"
+	case classObject:
+		return "object"
+	case classArray:
+		return "array"
+	case classString:
+		return "string"
+	case classArguments:
+		return "arguments"
+	case classGoStruct:
+		return "gostruct"
+	case classGoMap:
+		return "gomap"
+	case classGoArray:
+		return "goarray"
+	case classGoSlice:
+		return "goslice"
+	}
+	return "other"
+}
+
+func (d *verifC17Dumper) object(o *object) int {
+	if o == nil {
+		return -1
+	}
+	i, seen := d.alloc('O', uintptr(unsafe.Pointer(o)))
+	if seen {
+		return i
+	}
+	var n VerifC17Node
+	n = d.h.Nodes[i]
+	n.Rt = uintptr(unsafe.Pointer(o.runtime))
+	n.Class = o.class
+	n.OClass = verifC17ClassName(o.objectClass)
+	n.Ext = o.extensible
+	n.Proto = d.object(o.prototype)
+	n.OrderOK = len(o.propertyOrder) == len(o.property)
+	seenName := map[string]bool{}
+	for _, name := range o.propertyOrder {
+		p, ok := o.property[name]
+		if !ok || seenName[name] {
+			n.OrderOK = false
+			continue
+		}
+		seenName[name] = true
+		vp := VerifC17Prop{Name: name, Mode: int(p.mode), Get: -1, Set: -1, Val: VerifC17Val{Obj: -1}}
+		switch pv := p.value.(type) {
+		case Value:
+			vp.Kind = 'd'
+			vp.Val = d.val(pv)
+		case propertyGetSet:
+			vp.Kind = 'a'
+			vp.Get = d.object(pv[0])
+			vp.Set = d.object(pv[1])
+		default:
+			vp.Kind = 'x'
+		}
+		n.Props = append(n.Props, vp)
+	}
+	n.PKind = 'N'
+	switch pv := o.value.(type) {
+	case nil:
+		n.PData = "nil"
+	case nativeFunctionObject:
+		n.PKind = 'G'
+		c := "0"
+		if pv.call != nil {
+			c = "1"
+		}
+		if pv.construct != nil {
+			c += "1"
+		} else {
+			c += "0"
+		}
+		n.PData = verifC17Hex(pv.name) + "." + verifC17Hex(pv.file) + "." + strconv.Itoa(pv.line) + "." + c
+	case bindFunctionObject:
+		n.PKind = 'B'
+		n.Target = d.object(pv.target)
+		n.This = d.val(pv.this)
+		for _, a := range pv.argumentList {
+			n.Args = append(n.Args, d.val(a))
+		}
+	case nodeFunctionObject:
+		n.PKind = 'C'
+		n.NodePtr = uintptr(unsafe.Pointer(pv.node))
+		n.Stash = d.stash(pv.stash)
+	case argumentsObject:
+		n.PKind = 'A'
+		n.Names = append([]string{}, pv.indexOfParameterName...)
+		n.Stash = d.stash(pv.stash)
+	case dateObject:
+		n.PData = "date." + strconv.FormatInt(pv.epoch, 10) + "." + strconv.FormatBool(pv.isNaN)
+	case regExpObject:
+		n.PData = "re." + verifC17Hex(pv.source) + "." + verifC17Hex(pv.flags)
+	case stringObjecter:
+		n.PData = "str." + verifC17Hex(pv.String())
+	case ottoError:
+		n.PData = "err." + verifC17Hex(pv.name) + "." + verifC17Hex(pv.message)
+	case Value:
+		if _, isObj := pv.value.(*object); isObj {
+			n.PData = "valobj"
+		} else {
+			n.PData = "val." + verifC17Prim(pv)
+		}
+	default:
+		n.PData = "go." + verifC17Safe(fmt.Sprintf("%T", o.value))
+	}
+	d.h.Nodes[i] = n
+	return i
+}
+
+func verifC17Flags(p dclProperty) int {
+	f := 0
+	if p.mutable {
+		f |= 4
+	}
+	if p.deletable {
+		f |= 2
+	}
+	if p.readable {
+		f |= 1
+	}
+	return f
+}
+
+func (d *verifC17Dumper) bindings(m map[string]dclProperty) []VerifC17Binding {
+	names := make([]string, 0, len(m))
+	for k := range m {
+		names = append(names, k)
+	}
+	sort.Strings(names)
+	out := make([]VerifC17Binding, 0, len(names))
+	for _, k := range names {
+		out = append(out, VerifC17Binding{Name: k, Val: d.val(m[k].value), Flags: verifC17Flags(m[k])})
+	}
+	return out
+}
+
+func (d *verifC17Dumper) stash(s stasher) int {
+	switch st := s.(type) {
+	case nil:
+		return -1
+	case *dclStash:
+		if st == nil {
+			return -1
+		}
+		i, seen := d.alloc('D', uintptr(unsafe.Pointer(st)))
+		if seen {
+			return i
+		}
+		n := d.h.Nodes[i]
+		n.Rt = uintptr(unsafe.Pointer(st.rt))
+		n.Bindings = d.bindings(st.property)
+		n.Outer = d.stash(st.outr)
+		d.h.Nodes[i] = n
+		return i
+	case *fnStash:
+		if st == nil {
+			return -1
+		}
+		i, seen := d.alloc('F', uintptr(unsafe.Pointer(st)))
+		if seen {
+			return i
+		}
+		n := d.h.Nodes[i]
+		n.Rt = uintptr(unsafe.Pointer(st.rt))
+		n.Bindings = d.bindings(st.property)
+		n.Outer = d.stash(st.outr)
+		n.Arguments = d.object(st.arguments)
+		keys := make([]string, 0, len(st.indexOfArgumentName))
+		for k := range st.indexOfArgumentName {
+			keys = append(keys, k)
+		}
+		sort.Strings(keys)
+		for _, k := range keys {
+			n.Index = append(n.Index, [2]string{k, st.indexOfArgumentName[k]})
+		}
+		d.h.Nodes[i] = n
+		return i
+	case *objectStash:
+		if st == nil {
+			return -1
+		}
+		i, seen := d.alloc('E', uintptr(unsafe.Pointer(st)))
+		if seen {
+			return i
+		}
+		n := d.h.Nodes[i]
+		n.Rt = uintptr(unsafe.Pointer(st.rt))
+		n.Outer = d.stash(st.outr)
+		n.Object = d.object(st.object)
+		d.h.Nodes[i] = n
+		return i
+	}
+	panic(fmt.Sprintf("verifC17: unknown stash type %T", s))
+}
+
+// VerifC17Roots lists the runtime's root pointers in the order clone.go walks them:
+// globalObject, the 32 fields of rt.global, then rt.eval and rt.globalStash.
+func verifC17Roots(rt *runtime) []*object {
+	g := rt.global
+	return []*object{
+		rt.globalObject,
+		g.Object, g.Function, g.Array, g.String, g.Boolean, g.Number, g.Math, g.Date, g.RegExp,
+		g.Error, g.EvalError, g.TypeError, g.RangeError, g.ReferenceError, g.SyntaxError, g.URIError, g.JSON,
+		g.ObjectPrototype, g.FunctionPrototype, g.ArrayPrototype, g.StringPrototype, g.BooleanPrototype,
+		g.NumberPrototype, g.DatePrototype, g.RegExpPrototype, g.ErrorPrototype, g.EvalErrorPrototype,
+		g.TypeErrorPrototype, g.RangeErrorPrototype, g.ReferenceErrorPrototype, g.SyntaxErrorPrototype,
+		g.URIErrorPrototype,
+	}
+}
+
+// VerifC17Dump dumps the heap reachable from vm's roots. Roots are: the 33 object roots
+// of clone.go in order, rt.eval, rt.globalStash.
+func VerifC17Dump(vm *Otto) *VerifC17Heap {
+	rt := vm.runtime
+	d := &verifC17Dumper{h: &VerifC17Heap{Runtime: uintptr(unsafe.Pointer(rt))}, idx: map[verifC17Key]int{}}
+	for _, o := range verifC17Roots(rt) {
+		d.h.Roots = append(d.h.Roots, d.object(o))
+	}
+	d.h.Roots = append(d.h.Roots, d.object(rt.eval))
+	if rt.globalStash == nil {
+		d.h.Roots = append(d.h.Roots, -1)
+	} else {
+		d.h.Roots = append(d.h.Roots, d.stash(rt.globalStash))
+	}
+	return d.h
+}
+
+// VerifC17AtRest reports whether the runtime is at rest (no active scope, no pending labels).
+func VerifC17AtRest(vm *Otto) bool {
+	return vm.runtime.scope == nil && len(vm.runtime.labels) == 0
+}
+
+// VerifC17Settings returns the by-value runtime settings Copy() carries over.
+func VerifC17Settings(vm *Otto) string {
+	rt := vm.runtime
+	return fmt.Sprintf("stack%d.trace%d.dbg%t.rnd%t.otto%t", rt.stackLimit, rt.traceLimit, rt.debugger != nil, rt.random != nil, rt.otto == vm)
+}
